@@ -210,7 +210,11 @@ func (r *runState) step(i int, op *Op) {
 		if n > 0 {
 			r.changes++
 		}
-		r.res.Probes["absorb_blocks_"+fmt.Sprint(blocks)] = 1
+		if blocks >= 4 {
+			r.res.Probes["absorb_blocks_4plus"] = 1
+		} else {
+			r.res.Probes["absorb_blocks_"+fmt.Sprint(blocks)] = 1
+		}
 		desc += fmt.Sprintf("(%dx%d,%s)", hd.m, n, op.Pattern)
 	case "squeeze":
 		dst := make([]trinary.Trits, hd.m)
@@ -235,7 +239,11 @@ func (r *runState) step(i int, op *Op) {
 			hd.squeezing = true
 			r.changes++
 			if hd.squeezing {
-				r.res.Probes["squeeze_blocks_"+fmt.Sprint(blocks)] = 1
+				if blocks >= 4 {
+					r.res.Probes["squeeze_blocks_4plus"] = 1
+				} else {
+					r.res.Probes["squeeze_blocks_"+fmt.Sprint(blocks)] = 1
+				}
 			}
 		}
 		desc += fmt.Sprintf("(%dx%d)", hd.m, n)
@@ -351,13 +359,19 @@ func Gen(seed uint64, tier string) *Config {
 		switch {
 		case !sq[h] && x < 45:
 			o.Kind, o.Blocks, o.Pattern = "absorb", 1+r.IntN(3), patterns[r.IntN(len(patterns))]
-			if r.IntN(20) == 0 {
+			switch r.IntN(20) {
+			case 0:
 				o.Blocks = 0
+			case 1:
+				o.Blocks = 4 + r.IntN(6) // many blocks in one call
 			}
 		case x < 62:
 			o.Kind, o.Blocks = "squeeze", 1+r.IntN(3)
-			if r.IntN(20) == 0 {
+			switch r.IntN(20) {
+			case 0:
 				o.Blocks = 0
+			case 1:
+				o.Blocks = 4 + r.IntN(6)
 			}
 			if o.Blocks > 0 {
 				sq[h] = true
